@@ -256,3 +256,57 @@ Theorem C13_safe_entries_survive_runs : forall key pure wr cs hist r c k v,
   /\ (c_class c = Registry -> step_run key pure wr cs (after key pure wr cs hist) r (c_id c) k = None).
 Proof. exact safe_entries_survive. Qed.
 Print Assumptions C13_safe_entries_survive_runs.
+
+(* CALLER-OWNED CONFIGURATION.  Through the engine API the caller passes OBJECTS (EngineConfig / ExecutionConfig / ...) and may
+   give the same objects to the next run: they are carried state.  FULL, every list of write sites, every sequence of calls on
+   the same objects, whatever the writes store (wv): if no write site is executed by these calls the objects are unchanged ... *)
+Theorem C13_run_leaves_caller_configuration_unchanged : forall wv ws calls c,
+  no_owned_write ws calls = true -> cfg_after wv ws calls c = c.
+Proof. exact owned_unchanged. Qed.
+Print Assumptions C13_run_leaves_caller_configuration_unchanged.
+
+(* ... so re-using the objects equals rebuilding them: every run gets the inputs it would get from freshly built equal objects,
+   and (carried sites safe) its traffic is that of the same run in a fresh process *)
+Theorem C13_reusing_configuration_objects_equals_rebuilding : forall wv ws key pure wr genp p cs calls k c a,
+  no_owned_write ws calls = true ->
+  (hist_reused wv ws calls c = hist_rebuilt calls c /\ rin_reused wv ws calls k c = rin_rebuilt k c)
+  /\ (ids_distinct cs = true -> works_carried_safe cs (snd p) = true ->
+      traffic_after key pure wr genp p cs (hist_reused wv ws calls c) (rin_reused wv ws calls k c) a
+      = traffic_after key pure wr genp p cs [] (rin_rebuilt k c) a).
+Proof.
+  intros. split. apply reuse_equals_rebuild; assumption. intros. apply reused_traffic_is_fresh_traffic; assumption.
+Qed.
+Print Assumptions C13_reusing_configuration_objects_equals_rebuilding.
+
+(* TODAY's source (Gen_C13.gen_owned_writes, extracted on every run): no code reachable from a run writes into a configuration
+   object of the caller; any sequence of runs leaves the objects as they were, and (PARTIAL, outside the coverage phase - F2)
+   the traffic of a run on re-used objects in a used process is the traffic of the run on rebuilt objects in a fresh process *)
+Theorem C13_current_caller_configuration_unchanged_partial :
+  gen_owned_writes = []
+  /\ (forall wv calls c, cfg_after wv gen_owned_writes calls c = c)
+  /\ (forall wv key pure wr genp ws calls k c a, works_in carried_region_today ws = true ->
+        traffic_after key pure wr genp (gen_sites, ws) gen_carried (hist_reused wv gen_owned_writes calls c) (rin_reused wv gen_owned_writes calls k c) a
+        = traffic_after key pure wr genp (gen_sites, ws) gen_carried [] (rin_rebuilt k c) a).
+Proof. split. exact current_owned_writes. split. exact current_run_leaves_cfg. exact current_reused_traffic. Qed.
+Print Assumptions C13_current_caller_configuration_unchanged_partial.
+
+(* SENTINEL (seeded regression C13_e): the stateful executor writes the state-machine defaults into the caller's ExecutionConfig
+   (`config = replace(engine.config); config.execution.hypothesis_settings = ...`).  REFUTED: the write is executed by a run that
+   reaches the stateful phase (and only by such a run); afterwards the objects differ and the next run on them sends other
+   traffic than the same run on rebuilt objects *)
+Theorem C13_settings_write_sentinel_refuted :
+  owned_writes_active sentinel_owned_writes (k_phases all_phases_call) = [90]
+  /\ owned_writes_active sentinel_owned_writes (k_phases unit_phases_call) = []
+  /\ exists wv key pure wr genp calls k c a,
+       cfg_after wv sentinel_owned_writes calls c <> c
+       /\ traffic_after key pure wr genp (unit_plan fuzz_pos) [] (hist_reused wv sentinel_owned_writes calls c) (rin_reused wv sentinel_owned_writes calls k c) a
+          <> traffic_after key pure wr genp (unit_plan fuzz_pos) [] [] (rin_rebuilt k c) a.
+Proof. exact settings_write_sentinel_refuted. Qed.
+Print Assumptions C13_settings_write_sentinel_refuted.
+
+Theorem C13_settings_write_sentinel_differs_from_current_plan :
+  sentinel_owned_writes <> gen_owned_writes
+  /\ no_owned_write sentinel_owned_writes [all_phases_call] = false /\ no_owned_write gen_owned_writes [all_phases_call] = true
+  /\ no_owned_write sentinel_owned_writes [unit_phases_call] = true.
+Proof. exact settings_write_sentinel_differs. Qed.
+Print Assumptions C13_settings_write_sentinel_differs_from_current_plan.
